@@ -1,6 +1,7 @@
 package main
 
 import (
+	"go/constant"
 	"fmt"
 	"go/ast"
 	"go/token"
@@ -424,6 +425,72 @@ func ruleJSN3(c *Ctx) {
 	// const case is only used as argument of strconv.Quote
 	c.Check(quoted, "buildExpressionEx / string constants are quoted", p.Pos(bex.Pos()), "strconv.Quote", "a JSON string constant is emitted without Go quoting: quotes, backslashes and newlines in it break or change the rule")
 	c.Check(floatOK && floatBad == "", "buildExpressionEx / numeric constants are formatted losslessly", p.Pos(bex.Pos()), "strconv.FormatFloat(v, _, -1, 64)", "a JSON number is formatted with a fixed precision "+floatBad)
+	// ... and as a literal the GRL lexer and the listener accept: format 'f' prints every integral value in plain
+	// digits, which is an *integer* literal; beyond 2^63 the listener's ParseInt rejects it. 'e'/'g' always give a float
+	// literal or an integer below 10^17. So an 'f' rendering must sit under a magnitude test of the same value.
+	for _, ci := range callsIn(bex) {
+		call, ok := ci.(*ssa.Call)
+		if !ok || call.Call.StaticCallee() == nil || call.Call.StaticCallee().String() != "strconv.FormatFloat" {
+			continue
+		}
+		verb, okv := constInt(call.Call.Args[1])
+		construct := "buildExpressionEx / numeric constant is emitted as a literal the builder accepts"
+		if !okv {
+			c.Undecided(construct, p.InstrPos(call), "format verb of FormatFloat is not a constant")
+			continue
+		}
+		if verb != 'f' {
+			c.OK(construct, p.InstrPos(call), fmt.Sprintf("format %q yields a float literal or a short integer", rune(verb)))
+			continue
+		}
+		v := call.Call.Args[0]
+		guarded := edgesDominate(bex, call, func(b *ssa.BasicBlock, si int) bool {
+			iff, isIf := b.Instrs[len(b.Instrs)-1].(*ssa.If)
+			if !isIf {
+				return false
+			}
+			bo, isBo := iff.Cond.(*ssa.BinOp)
+			if !isBo {
+				return false
+			}
+			// |v| (math.Abs(v)) or v itself compared with a constant bound
+			isV := func(x ssa.Value) bool {
+				if x == v {
+					return true
+				}
+				if cl, isCall := x.(*ssa.Call); isCall && calleeName(cl) == "math.Abs" && cl.Call.Args[0] == v {
+					return true
+				}
+				return false
+			}
+			var k *ssa.Const
+			small := -1 // successor index on which the value is below the bound
+			switch {
+			case isV(bo.X):
+				k, _ = bo.Y.(*ssa.Const)
+				switch bo.Op {
+				case token.LSS, token.LEQ:
+					small = 0
+				case token.GTR, token.GEQ:
+					small = 1
+				}
+			case isV(bo.Y):
+				k, _ = bo.X.(*ssa.Const)
+				switch bo.Op {
+				case token.GTR, token.GEQ:
+					small = 0
+				case token.LSS, token.LEQ:
+					small = 1
+				}
+			}
+			if k == nil || k.Value == nil || small < 0 {
+				return false
+			}
+			bound, _ := constant.Float64Val(constant.ToFloat(k.Value))
+			return bound > 0 && bound <= 9223372036854775808.0 && si == small
+		})
+		c.Check(guarded, construct, p.InstrPos(call), "'f' rendering under a magnitude bound <= 2^63", "format 'f' prints an integral constant of any magnitude in plain digits: {\"const\": 1e19} becomes the integer literal 10000000000000000000, which the GRL builder rejects (out of the 64-bit range)")
+	}
 	descQuoted := false
 	for _, ci := range callsIn(pr) {
 		call, ok := ci.(*ssa.Call)
@@ -538,6 +605,49 @@ func ruleJSN4(c *Ctx) {
 			}
 		}
 		c.Check(ok, r.fn+" / rejects "+r.desc, p.Pos(fn.Pos()), "guard leads to an error return", "the translator no longer rejects: "+r.desc)
+	}
+	// the 13 binary operators need two or more operands (docs: "x and y are two or more …"); only `not` has a unary form
+	if fn := p.Func("pkg", "joinOperator"); fn != nil && len(fn.Params) >= 2 {
+		loops := naturalLoops(fn)
+		opParam := ssa.Value(fn.Params[1])
+		ok := false
+		for _, b := range fn.Blocks {
+			iff, isIf := b.Instrs[len(b.Instrs)-1].(*ssa.If)
+			if !isIf {
+				continue
+			}
+			m1, _ := lenCmp(token.EQL, 1)(iff, fn)
+			m2, _ := lenCmp(token.LSS, 2)(iff, fn)
+			if !m1 && !m2 {
+				continue
+			}
+			t := b.Succs[0]
+			if onlyErrorReturns(t, loops) {
+				// rejects the unary form of `not` as well: that is a documented feature (TestJsonNegation), JSN-5 decides it
+				continue
+			}
+			// one more test, on the operator: everything but " != " is rejected
+			if iff2, isIf2 := t.Instrs[len(t.Instrs)-1].(*ssa.If); isIf2 {
+				if bo, isBo := iff2.Cond.(*ssa.BinOp); isBo && (bo.Op == token.NEQ || bo.Op == token.EQL) {
+					var other ssa.Value
+					if bo.X == opParam {
+						other = bo.Y
+					} else if bo.Y == opParam {
+						other = bo.X
+					}
+					if sv, isS := constString(other); other != nil && isS && strings.TrimSpace(sv) == "!=" {
+						edge := 0
+						if bo.Op == token.EQL {
+							edge = 1
+						}
+						if onlyErrorReturns(t.Succs[edge], loops) {
+							ok = true
+						}
+					}
+				}
+			}
+		}
+		c.Check(ok, "joinOperator / rejects a single operand unless the operator is the unary-capable not", p.Pos(fn.Pos()), "len(operands) == 1 && operator != \" != \" leads to an error return", "a binary operator with one operand is accepted and emitted as the bare operand: {\"eq\":[\"A.X\"]} becomes `A.X` (wrong arity must be rejected; the sibling translators for and/or, set and call do check their operand counts)")
 	}
 	// total number of error-returning branches in the translator (drop = suspicious)
 	total := 0
